@@ -27,6 +27,21 @@ Fixpoint py_splitlines (s : str) : list str :=
       else cons_first c (py_splitlines s')
   end.
 
+(* str.splitlines(True): every line keeps its terminator *)
+Fixpoint py_splitlines_keep (s : str) : list str :=
+  match s with
+  | [] => []
+  | c :: s' =>
+      if is_linebreak c then
+        match s' with
+        | d :: s'' => if (c =? 13) && (d =? 10) then [c; d] :: py_splitlines_keep s'' else [c] :: py_splitlines_keep s'
+        | [] => [[c]]
+        end
+      else cons_first c (py_splitlines_keep s')
+  end.
+(* <line>.splitlines()[0] for a non-empty line: the line without its terminator *)
+Definition py_line_content (l : str) : str := match py_splitlines l with x :: _ => x | [] => [] end.
+
 Fixpoint py_join (sep : str) (ls : list str) : str :=
   match ls with
   | [] => []
